@@ -60,7 +60,7 @@ CLAIMED.update({
         text=("Same extracted loop for tuned runs (no sample_size): sizes are 1, 2, 4, ... doubling each round while the slowest sample / "
               "timer precision <= 100, the first round exceeding 100 becomes the first recorded one and its size is kept, samples of earlier "
               "rounds are cleared (SampleCollection::clear: timings and allocation map) before it is stored, recorded = T * (rounds - first), "
-              "and max_time is checked before every tuning round; CounterCollection::clear_input_counts empties the per-sample counts of every input-fed counter kind and of no other. ENVIRONMENT ASSUMPTION: a sample of >= 2^31 iterations outlasts 101 x "
+              "and max_time is checked before every tuning round; CounterCollection::clear_input_counts empties the per-sample counts of every input-fed counter kind and of no other (also on the compiled function, Kani, one collection with two input-fed kinds). ENVIRONMENT ASSUMPTION: a sample of >= 2^31 iterations outlasts 101 x "
               "precision (so doubling cannot overflow u32)."),
         note=LOOP_NOTE,
         technique="Verus loop invariants over a ghost history on the extracted sampling loop",
@@ -173,7 +173,7 @@ CLAIMED.update({
               "forms) the value itself dropped exactly once after the end timestamp, output before input, all on the generating thread. Six "
               "complete harnesses through the real entry points show the _local forms reach the loop with thread_count 1 for every "
               "configured count and the other forms with the configured count. Verus proves (no bound) on the closure count_input of bench_loop_threaded, outlined: "
-              "a generated value is shown exactly once to the input counter of every kind and what each says is added to that kind's total of the sample and to no other."),
+              "a generated value is shown exactly once to the input counter of every kind and what each says is added to that kind's total of the sample and to no other; the same statements as compiled run in a shim against a recording counter collection (Kani, bounded)."),
         note=ROUND_NOTE,
         technique="bounded Kani harnesses with an online monitor (bounded stand-in); complete Kani harnesses for the entry points; Verus contract on the outlined count_input closure",
         design_ref="5 C01"),
